@@ -819,6 +819,50 @@ func runC11(c *Collector, r *Rng, thorough bool) {
 					}
 				}
 			}
+			// a signer's alg removed from its protected header after signing (no external data): the signature is not
+			// over that header any more and the layer names no algorithm - refused, and the header stays as it is
+			if len(ext) == 0 {
+				for j := 0; j < n; j++ {
+					t := &cose.SignMessage{Headers: m.Headers, Payload: payload}
+					for q, sg := range m.Signatures {
+						cp := &cose.Signature{Headers: cloneHeaders(sg.Headers), Signature: sg.Signature}
+						if q == j {
+							delete(cp.Headers.Protected, cose.HeaderLabelAlgorithm)
+						}
+						t.Signatures = append(t.Signatures, cp)
+					}
+					verr := t.Verify(ext, verifiers...)
+					_, still := t.Signatures[j].Headers.Protected[cose.HeaderLabelAlgorithm]
+					if verr == nil || still {
+						c.Fail("C11/tampered-accepted", fmt.Sprintf("signer %d's alg was removed from its protected header after signing: Verify returned %v, the header has an alg again: %v", j, verr, still), rep)
+					}
+				}
+			}
+			// RSASSA-PSS signatures by the right key over the right structure, but with another salt length than the
+			// digest length (RFC 8230): not a valid PSnnn signature, at any position
+			if rk, ok := k.priv.(*rsa.PrivateKey); ok {
+				for j := 0; j < n; j++ {
+					tbs, _ := refSigN(&m.Headers, &m.Signatures[j].Headers, ext, payload)
+					h := algHash(k.alg)
+					for _, salt := range []int{0, 20, h.Size() - 1, h.Size() + 1, rsa.PSSSaltLengthAuto} {
+						odd, err := rsa.SignPSS(r, rk, h, digestOf(h, tbs), &rsa.PSSOptions{SaltLength: salt, Hash: h})
+						if err != nil {
+							continue
+						}
+						t := &cose.SignMessage{Headers: m.Headers, Payload: payload}
+						for q, sg := range m.Signatures {
+							cp := &cose.Signature{Headers: sg.Headers, Signature: sg.Signature}
+							if q == j {
+								cp.Signature = odd
+							}
+							t.Signatures = append(t.Signatures, cp)
+						}
+						if t.Verify(ext, verifiers...) == nil {
+							c.Fail("C11/malformed-signature-accepted", fmt.Sprintf("COSE_Sign verified although signature %d is an RSASSA-PSS signature with salt length %d (digest length %d)", j, salt, h.Size()), rep)
+						}
+					}
+				}
+			}
 			// signatures made by the standard library over the RFC structure are accepted
 			m2 := &cose.SignMessage{Headers: m.Headers, Payload: payload}
 			for j := 0; j < n; j++ {
@@ -1180,32 +1224,61 @@ func runC20(c *Collector, r *Rng, thorough bool) {
 			total *= len(vopts)
 		}
 		for code := 0; code < total; code++ {
-			sm := &cose.SignMessage{Headers: hdr(0), Payload: []byte("p")}
-			delete(sm.Headers.Protected, cose.HeaderLabelAlgorithm)
-			var vfs []*spyVerifier
-			first := -1
-			for j, cd := 0, code; j < n; j, cd = j+1, cd/len(vopts) {
-				sm.Signatures = append(sm.Signatures, &cose.Signature{Headers: hdr(valgs[j]), Signature: []byte{byte(j + 1)}})
-				vfs = append(vfs, &spyVerifier{alg: valgs[j], err: vopts[cd%len(vopts)]})
-				if first < 0 && vopts[cd%len(vopts)] != nil {
-					first = j
+			for _, identical := range []bool{false, true} { // identical: every slot holds the same COSE_Signature, byte for byte
+				sm := &cose.SignMessage{Headers: hdr(0), Payload: []byte("p")}
+				delete(sm.Headers.Protected, cose.HeaderLabelAlgorithm)
+				var vfs []*spyVerifier
+				first := -1
+				for j, cd := 0, code; j < n; j, cd = j+1, cd/len(vopts) {
+					if identical {
+						sm.Signatures = append(sm.Signatures, &cose.Signature{Headers: hdr(valgs[0]), Signature: []byte{7, 7}})
+						vfs = append(vfs, &spyVerifier{alg: valgs[0], err: vopts[cd%len(vopts)]})
+					} else {
+						sm.Signatures = append(sm.Signatures, &cose.Signature{Headers: hdr(valgs[j]), Signature: []byte{byte(j + 1)}})
+						vfs = append(vfs, &spyVerifier{alg: valgs[j], err: vopts[cd%len(vopts)]})
+					}
+					if first < 0 && vopts[cd%len(vopts)] != nil {
+						first = j
+					}
+				}
+				op, obs, err, p := execVerifyMsg(sm, nil, vfs)
+				if p {
+					c.Fail("C20/panic", "SignMessage.Verify panicked", map[string]any{"op": trunc(op, 500)})
+					continue
+				}
+				addCase(c, fmt.Sprintf("verifymsg/fault-vector/n=%d", n), op, obs, true)
+				rep := map[string]any{"op": trunc(op, 900), "n": n, "first_failing": first}
+				if first < 0 {
+					if err != nil {
+						c.Fail("C20/verifier-success-not-propagated", "every verifier succeeded but SignMessage.Verify returned "+err.Error(), rep)
+					}
+					continue
+				}
+				if err == nil || !errors.Is(err, vfs[first].err) {
+					c.Fail("C20/verifier-error-not-propagated", fmt.Sprintf("verifier %d of %d returned %v, SignMessage.Verify returned %v (identical slots: %v)", first, n, vfs[first].err, err, identical), rep)
 				}
 			}
-			op, obs, err, p := execVerifyMsg(sm, nil, vfs)
+		}
+	}
+	// ---- VerifyHashEnvelope: the verifier's answer decides, whatever digest algorithm the envelope names ----
+	for _, ha := range []int64{-16, -43, -44, -45, -15, 5, -65540} {
+		for _, verr := range []error{nil, cose.ErrVerification, errScripted} {
+			size := map[int64]int{-16: 32, -43: 48, -44: 64}[ha]
+			if size == 0 {
+				size = 32
+			}
+			env := wTag(18, -1, wArr(-1, wBstr(wMap(-1, wInt(1, -1), wInt(-7, -1), wInt(258, -1), wInt(ha, -1)).Ser(), -1), wMap(-1), wBstr(make([]byte, size), -1), wBstr([]byte{1, 2, 3}, -1))).Ser()
+			vf := &spyVerifier{alg: -7, err: verr}
+			op, obs, msg, err, p := execVerifyHE(vf, env)
 			if p {
-				c.Fail("C20/panic", "SignMessage.Verify panicked", map[string]any{"op": trunc(op, 500)})
+				c.Fail("C20/panic", "VerifyHashEnvelope panicked", map[string]any{"data": hx(env)})
 				continue
 			}
-			addCase(c, fmt.Sprintf("verifymsg/fault-vector/n=%d", n), op, obs, true)
-			rep := map[string]any{"op": trunc(op, 900), "n": n, "first_failing": first}
-			if first < 0 {
-				if err != nil {
-					c.Fail("C20/verifier-success-not-propagated", "every verifier succeeded but SignMessage.Verify returned "+err.Error(), rep)
-				}
-				continue
-			}
-			if err == nil || !errors.Is(err, vfs[first].err) {
-				c.Fail("C20/verifier-error-not-propagated", fmt.Sprintf("verifier %d of %d returned %v, SignMessage.Verify returned %v", first, n, vfs[first].err, err), rep)
+			addCase(c, "verify-hash-envelope/propagation", op, obs, true)
+			if verr != nil && (err == nil || msg != nil) {
+				c.Fail("C20/verifier-error-not-propagated", fmt.Sprintf("the verifier returned %v (it was consulted %d times), VerifyHashEnvelope returned a message for digest algorithm %d", verr, len(vf.calls), ha), map[string]any{"data": hx(env)})
+			} else if verr == nil && err == nil && len(vf.calls) != 1 {
+				c.Fail("C20/verifier-error-not-propagated", fmt.Sprintf("VerifyHashEnvelope returned a message for digest algorithm %d without consulting the verifier", ha), map[string]any{"data": hx(env)})
 			}
 		}
 	}
